@@ -119,7 +119,11 @@ def check(ctx):
     # ---------------- edits of a 3-face ring and of a rotated 2-face table
     ring = {0: {AX: ((2, AX, False), (1, AX, False))}, 1: {AX: ((0, AX, False), (2, AX, False))}, 2: {AX: ((1, AX, False), (0, AX, False))}}
     rot = {0: {AX: (None, (1, AY, False)), AY: (None, None)}, 1: {AY: ((0, AX, False), None), AX: (None, None)}}
-    for name, base, faces, axes_ in (("3-face ring", ring, (0, 1, 2), (AX,)), ("rotated 2-face 2-axis table", rot, (0, 1), (AX, AY))):
+    # the same rotated table with every face listing its unconnected axis first: the order in which a face lists its axes
+    # is immaterial to reciprocity
+    rot2 = {0: {AY: (None, None), AX: (None, (1, AY, False))}, 1: {AX: (None, None), AY: ((0, AX, False), None)}}
+    for name, base, faces, axes_ in (("3-face ring", ring, (0, 1, 2), (AX,)), ("rotated 2-face 2-axis table", rot, (0, 1), (AX, AY)),
+                                     ("rotated 2-face 2-axis table, unconnected axes listed first", rot2, (0, 1), (AX, AY))):
         alpha = [None] + [(g, a, rev) for g in faces for a in axes_ for rev in (False, True)]
         slots = [(f, a, s) for f in base for a in base[f] for s in (0, 1)]
         assert reciprocal(base, set(faces), {AX, AY})
